@@ -30,7 +30,7 @@ from vlib import qstr
 import gen_structure
 
 NS = 'xmlns="http://www.w3.org/2000/svg" xmlns:xlink="http://www.w3.org/1999/xlink"'
-MY_TIES = ('StructTables', 'ShapePaths', 'UseClip', 'gen_structure', 'SvgTables', 'gen_svgtree', 'aligned_pos', 'to_transform', 'translate.py')
+MY_TIES = ('StructTables', 'ShapePaths', 'UseClip', 'GzipMagic', 'gen_structure', 'SvgTables', 'gen_svgtree', 'aligned_pos', 'to_transform', 'translate.py')
 ALIGNS = ['none', 'xMinYMin', 'xMidYMin', 'xMaxYMin', 'xMinYMid', 'xMidYMid', 'xMaxYMid', 'xMinYMax', 'xMidYMax', 'xMaxYMax']
 COQ_ALIGN = {'none': 'ANone', 'xMinYMin': 'XMinYMin', 'xMidYMin': 'XMidYMin', 'xMaxYMin': 'XMaxYMin',
              'xMinYMid': 'XMinYMid', 'xMidYMid': 'XMidYMid', 'xMaxYMid': 'XMaxYMid',
@@ -667,6 +667,26 @@ def degenerate_points(rng):
         cls = 'closing-and-start-duplicate'
     sep = rng.choice([',', ' '])
     return pts, rng.choice([' ', ', ']).join('%s%s%s' % (fnum(a), sep, fnum(b)) for a, b in pts) + tail, cls
+
+
+def gzip_member(data, rng, flags):
+    """RFC 1952 member around a raw deflate stream, with the optional header fields named in `flags`
+    (FTEXT 1, FHCRC 2, FEXTRA 4, FNAME 8, FCOMMENT 16), any MTIME / XFL / OS"""
+    import struct
+    import zlib
+    co = zlib.compressobj(rng.choice([1, 6, 9]), zlib.DEFLATED, -15)
+    raw = co.compress(data) + co.flush()
+    hdr = bytes([0x1f, 0x8b, 8, flags]) + struct.pack('<I', rng.choice([0, 1, 1700000000])) + bytes([rng.choice([0, 2, 4]), rng.choice([0, 3, 255])])
+    if flags & 4:
+        extra = bytes(rng.below(256) for _ in range(rng.below(12)))
+        hdr += struct.pack('<H', len(extra)) + extra
+    if flags & 8:
+        hdr += rng.choice([b'drawing.svg', b'a', b'x' * 40]) + b'\0'
+    if flags & 16:
+        hdr += rng.choice([b'made by hand', b'']) + b'\0'
+    if flags & 2:
+        hdr += struct.pack('<H', zlib.crc32(hdr) & 0xffff)
+    return hdr + raw + struct.pack('<II', zlib.crc32(data) & 0xffffffff, len(data) & 0xffffffff)
 
 
 def gen_shape_pair(rng):
@@ -1707,6 +1727,14 @@ def run_e2e(ctx, binp, T, n):
         # gzip vs plain
         doc = gen_use_doc(rng, i).ser(True)
         add('gzip', 'hex:' + hexs(gzip.compress(doc.encode(), compresslevel=rng.choice([1, 6, 9]), mtime=0)), doc)
+    # seeded/C10-15: gzip members whose header sets FLG bits (FNAME as written by `gzip file.svg`, FCOMMENT, FEXTRA, FHCRC, FTEXT)
+    flag_hist = {}
+    for i in range(max(10, n // 25)):
+        doc = gen_use_doc(rng, i).ser(True)
+        fl = [8, 1, 2, 4, 16, 8 | 16, 8 | 2, 4 | 8 | 16, 1 | 2 | 4 | 8 | 16, 0][i % 10]
+        flag_hist[fl] = flag_hist.get(fl, 0) + 1
+        add('gzip-header-flags', 'hex:' + hexs(gzip_member(doc.encode(), rng, fl)), doc)
+    ctx.cov['gzip_header_flags'] = flag_hist
     # viewports whose viewBox size is in a special relation to the viewport size (non-zero origin)
     for i in range(max(12, n // 4)):
         W, H = dy(rng, 20, 150), dy(rng, 20, 150)
